@@ -50,17 +50,52 @@ pub fn run(a: &Args) {
         }
     }
 
+    // (a') the same on ids at the edges of the representation: around 0, isize::MAX and usize::MAX
+    // (ids compare as unsigned numbers over the whole range, not as serial numbers)
+    let edge: Vec<u64> = {
+        let h = 1u64 << 63;
+        vec![0, 1, 2, h - 2, h - 1, h, h + 1, h + 2, u64::MAX - 2, u64::MAX - 1, u64::MAX]
+    };
+    let n_edge = if a.thorough() { 4000 } else { 300 };
+    for _ in 0..n_edge {
+        let start = edge[rng.below(edge.len() as u64) as usize];
+        let len = 1 + rng.below(5) as usize;
+        let seq: Vec<u64> = (0..len).map(|_| edge[rng.below(edge.len() as u64) as usize]).collect();
+        let mut cur = reload_id_from(start as usize);
+        let mut answers = vec![];
+        for &o in &seq {
+            answers.push(cur.update(reload_id_from(o as usize)));
+        }
+        let fin = reload_id_raw(cur) as u64;
+        cases.push_nt(
+            g_seq,
+            format!(
+                "({}, {}, {}, {})",
+                start,
+                clist(&seq.iter().map(|x| x.to_string()).collect::<Vec<_>>()),
+                fin,
+                clist(&answers.iter().map(|b| cbool(*b)).collect::<Vec<_>>())
+            ),
+            format!(
+                "{{\"kind\": \"ReloadId::update sequence (edge ids)\", \"start\": {}, \"offers\": {:?}, \"final\": {}, \"answers\": {:?}}}",
+                start, seq, fin, answers
+            ),
+            true,
+        );
+        n_seq += 1;
+    }
+
     // (b) sequential mixtures on the atomic cell (large ids included)
     let g_at = cases.group("at_cases", "N * list aop * list aout * N");
     let n_at = if a.thorough() { 5000 } else { 400 };
     let mut op_hist = [0u64; 6];
     for _ in 0..n_at {
-        let big = rng.chance(1, 4);
+        let big = rng.below(8);
         let mut id = |rng: &mut Rng| -> u64 {
-            if big {
-                rng.below(1 << 40)
-            } else {
-                rng.below(6)
+            match big {
+                0 => rng.below(1 << 40),
+                1 => edge[rng.below(edge.len() as u64) as usize],
+                _ => rng.below(6),
             }
         };
         let start = id(&mut rng);
@@ -119,12 +154,21 @@ pub fn run(a: &Args) {
         *thr_hist.entry(threads).or_insert(0u64) += 1;
         let per = if tight { 1 + rng.below(2) as usize } else { 1 + rng.below(40) as usize };
         let range = if tight { 2 + rng.below(6) } else { 1 + rng.below(30) };
-        let start = rng.below(range.min(4));
+        // some rounds race on ids at the edges of the representation
+        let use_edge = round % 7 == 3;
+        let pick = |rng: &mut Rng, bound: u64| -> u64 {
+            if use_edge {
+                edge[rng.below(edge.len() as u64) as usize]
+            } else {
+                rng.below(bound)
+            }
+        };
+        let start = pick(&mut rng, range.min(4));
         let cell = Arc::new(AtomicReloadId::with_value(reload_id_from(start as usize)));
         let barrier = Arc::new(Barrier::new(threads));
         let mut handles = vec![];
         for _ in 0..threads {
-            let offers: Vec<u64> = (0..per).map(|_| rng.below(range)).collect();
+            let offers: Vec<u64> = (0..per).map(|_| pick(&mut rng, range)).collect();
             let cell = cell.clone();
             let barrier = barrier.clone();
             handles.push(std::thread::spawn(move || {
